@@ -44,13 +44,15 @@ theorem MixOK_spec {env : ResultTypes.Env} {K : Nat} {cn tn : String} {sel : Lis
 
 /-- **(1) generation of the classes of a selection set with mixin spreads** -/
 theorem mix_generation (env : ResultTypes.Env) (K : Nat) (hfr : FragsOK env K) (cn tn : String) (sid : Nat)
-    (sel : List Selection) (st : St) (h : MixOK env K cn tn sel = true) (hmarks : st.marks = [])
+    (sel : List Selection) (st : St) (h : MixOK env K cn tn sel = true)
+    (hmark : st.marks.contains sid = false) (hfree : sidFree st.marks sel = true)
     (hnd : ((mClass env cn tn sel).map (·.name)).Nodup) (hfresh : ∀ n ∈ (mClass env cn tn sel).map (·.name), n ∉ st.publicNames)
     (fuel : Nat) (hfuel : gfuel sel ≤ fuel) :
     ∃ st', parseTypeDefinition env fuel cn tn sid sel false [] [] st = .ok (mClass env cn tn sel, st') ∧
-      st'.publicNames = st.publicNames ++ (mClass env cn tn sel).map (·.name) ∧ st'.marks = [] ∧ st'.unpacked = st.unpacked := by
+      st'.publicNames = st.publicNames ++ (mClass env cn tn sel).map (·.name) ∧ st'.marks = st.marks ∧
+      st'.unpacked = st.unpacked := by
   obtain ⟨hk, _, hloc, _, _⟩ := MixOK_spec h
-  exact gen_spec env K hfr fuel cn tn sid sel [] st hfuel hmarks hk hloc hnd hfresh
+  exact gen_spec env K hfr fuel cn tn sid sel [] st hfuel hmark hfree hk hloc hnd hfresh
 
 /-- **(2) every conformant response is accepted and dumped back** -/
 theorem mix_roundtrip (env : ResultTypes.Env) (K : Nat) (hfr : FragsOK env K) (cn tn : String) (sel : List Selection)
